@@ -119,3 +119,87 @@ Proof.
     replace (bytes_eqb s_findValue s_findNode) with false by (vm_compute; reflexivity). rewrite bytes_eqb_refl.
     cbn [removelast hash_key_ok last]. unfold HASH_LENGTH. rewrite Hr. reflexivity.
 Qed.
+
+(* ------------------------------------------------------------------------------------------ *)
+(* the error text that answers an unknown method: cut by characters, it stays valid UTF-8         *)
+(* ------------------------------------------------------------------------------------------ *)
+
+Lemma utf8_take_prefix n : forall s, exists t, s = utf8_take n s ++ t.
+Proof.
+  induction n as [|n IH]; intro s; [exists s; reflexivity|].
+  destruct s as [|a r]; [exists []; reflexivity|]. cbn [utf8_take].
+  destruct (IH (skipn (utf8_seq_len a) (a :: r))) as [t Ht].
+  exists t. rewrite <- app_assoc, <- Ht. symmetry. apply firstn_skipn.
+Qed.
+
+Lemma utf8_take_length n : forall s, (length (utf8_take n s) <= 4 * n)%nat.
+Proof.
+  induction n as [|n IH]; intro s; [simpl; lia|].
+  destruct s as [|a r]; [simpl; lia|]. cbn [utf8_take]. rewrite app_length.
+  specialize (IH (skipn (utf8_seq_len a) (a :: r))).
+  assert (length (firstn (utf8_seq_len a) (a :: r)) <= 4)%nat.
+  { rewrite firstn_length. unfold utf8_seq_len.
+    destruct (N_of_byte a <=? 127); [lia|]. destruct (N_of_byte a <=? 223); [lia|].
+    destruct (N_of_byte a <=? 239); lia. }
+  lia.
+Qed.
+
+Lemma utf8_take_valid n : forall s, utf8_valid s = true -> utf8_valid (utf8_take n s) = true.
+Proof.
+  induction n as [|n IH]; intros s H; [reflexivity|].
+  destruct s as [|a r]; [reflexivity|]. cbn [utf8_take]. cbn [utf8_valid] in H. unfold utf8_seq_len.
+  destruct (N_of_byte a <=? 127) eqn:E1.
+  - cbn [firstn skipn app utf8_valid]. rewrite E1. apply IH. exact H.
+  - apply N.leb_gt in E1.
+    destruct (in_rng 194 223 a) eqn:E2.
+    + unfold in_rng in E2. apply andb_true_iff in E2 as [A B]. apply N.leb_le in A. apply N.leb_le in B.
+      replace (N_of_byte a <=? 223) with true by (symmetry; apply N.leb_le; lia).
+      destruct r as [|b r2]; [discriminate|]. apply andb_true_iff in H as [Hb Hr].
+      cbn [firstn skipn app utf8_valid].
+      replace (N_of_byte a <=? 127) with false by (symmetry; apply N.leb_gt; lia).
+      replace (in_rng 194 223 a) with true by (symmetry; unfold in_rng; apply andb_true_iff; split; apply N.leb_le; lia).
+      rewrite Hb. cbn [andb]. apply IH. exact Hr.
+    + destruct (in_rng 224 239 a) eqn:E3.
+      * unfold in_rng in E3. apply andb_true_iff in E3 as [A B]. apply N.leb_le in A. apply N.leb_le in B.
+        replace (N_of_byte a <=? 223) with false by (symmetry; apply N.leb_gt; lia).
+        replace (N_of_byte a <=? 239) with true by (symmetry; apply N.leb_le; lia).
+        destruct r as [|b [|c r3]]; try discriminate.
+        apply andb_true_iff in H as [H Hr]. apply andb_true_iff in H as [Hb Hc].
+        cbn [firstn skipn app utf8_valid].
+        replace (N_of_byte a <=? 127) with false by (symmetry; apply N.leb_gt; lia).
+        rewrite E2.
+        replace (in_rng 224 239 a) with true by (symmetry; unfold in_rng; apply andb_true_iff; split; apply N.leb_le; lia).
+        rewrite Hb, Hc. cbn [andb]. apply IH. exact Hr.
+      * destruct (in_rng 240 244 a) eqn:E4; [|discriminate].
+        unfold in_rng in E4. apply andb_true_iff in E4 as [A B]. apply N.leb_le in A. apply N.leb_le in B.
+        replace (N_of_byte a <=? 223) with false by (symmetry; apply N.leb_gt; lia).
+        replace (N_of_byte a <=? 239) with false by (symmetry; apply N.leb_gt; lia).
+        destruct r as [|b [|c [|d r4]]]; try discriminate.
+        apply andb_true_iff in H as [H Hr]. apply andb_true_iff in H as [H Hd]. apply andb_true_iff in H as [Hb Hc].
+        cbn [firstn skipn app utf8_valid].
+        replace (N_of_byte a <=? 127) with false by (symmetry; apply N.leb_gt; lia).
+        rewrite E2, E3.
+        replace (in_rng 240 244 a) with true by (symmetry; unfold in_rng; apply andb_true_iff; split; apply N.leb_le; lia).
+        rewrite Hb, Hc, Hd. cbn [andb]. apply IH. exact Hr.
+Qed.
+
+Lemma utf8_valid_ascii_app a s : Forall (fun b => N_of_byte b <= 127) a -> utf8_valid (a ++ s) = utf8_valid s.
+Proof.
+  induction 1 as [|b r Hb Hr IH]; [reflexivity|].
+  cbn [app utf8_valid]. replace (N_of_byte b <=? 127) with true by (symmetry; apply N.leb_le; exact Hb). exact IH.
+Qed.
+
+(* the text echoed for an unknown method (any valid UTF-8 name, any length) is valid UTF-8, so building the
+   ErrorDatagram cannot fail, it is a prefix of the full text and at most 1024 bytes long *)
+Theorem invalid_method_text_ok method :
+  utf8_valid method = true ->
+  utf8_valid (invalid_method_text method) = true
+  /\ (length (invalid_method_text method) <= 1024)%nat
+  /\ exists t, s_invalid_method ++ method = invalid_method_text method ++ t.
+Proof.
+  intro H. unfold invalid_method_text. split; [|split].
+  - apply utf8_take_valid. rewrite utf8_valid_ascii_app; [exact H|].
+    unfold s_invalid_method. repeat constructor; vm_compute; discriminate.
+  - pose proof (utf8_take_length ERROR_TEXT_LIMIT (s_invalid_method ++ method)). unfold ERROR_TEXT_LIMIT in *. lia.
+  - apply utf8_take_prefix.
+Qed.
